@@ -63,6 +63,7 @@ type State struct {
 	defers  []*deferred
 	pending []*pendingHavoc
 	addr    map[types.Object]*Term // locals whose address was taken (moved to the heap)
+	retPos  token.Pos              // position of the return statement this (exit) state left the function by
 }
 
 // pendingHavoc: a havoc event that also applies to heap arrays not yet
@@ -100,6 +101,7 @@ type closure struct {
 }
 
 type Exec struct {
+	softNames, softMiss bool // evaluating an "ensures internal" clause: an unresolved local only skips the clause at this exit
 	madeVars      map[types.Object]*types.Var // hidden 'allocated here' flags of local slice variables
 	visitedVars   []*types.Var // ghost visited sets of the enclosing range-over-map loops
 	patAbs        bool
@@ -160,7 +162,7 @@ type Exec struct {
 func (x *Exec) frame() *fnFrame { return x.frames[len(x.frames)-1] }
 
 func (st *State) clone() *State {
-	n := &State{alloc: st.alloc}
+	n := &State{alloc: st.alloc, retPos: st.retPos}
 	n.pc = append([]*Term{}, st.pc...)
 	n.env = make(map[types.Object]*Value, len(st.env))
 	for k, v := range st.env {
@@ -1274,6 +1276,9 @@ func (x *Exec) execReturn(st *State, s *ast.ReturnStmt) *State {
 			}
 		}
 	}
+	if len(x.frames) == 1 {
+		st.retPos = s.Pos()
+	}
 	fr.returns = append(fr.returns, st)
 	return nil
 }
@@ -2229,6 +2234,23 @@ func (x *Exec) runLoopHavoc(st *State, lp *loopParts, spec *LoopSpec, ord int) *
 		invPos = ln.Body.Lbrace + 1
 	}
 	evalInv := func(s *State, cl *Clause) *Term {
+		// "ri" names this loop's own range index (ri<ordinal> shifts when a loop is added in front)
+		for _, o := range lp.extraObjs {
+			if strings.HasPrefix(o.Name(), "ri") && len(o.Name()) <= 4 {
+				if v, ok := s.env[o]; ok {
+					saved, had := s.names["ri"]
+					s.names["ri"] = v
+					defer func() {
+						if had {
+							s.names["ri"] = saved
+						} else {
+							delete(s.names, "ri")
+						}
+					}()
+				}
+				break
+			}
+		}
 		return x.evalClause(s, cl, invPos)
 	}
 	// contract-level invariants apply to every loop of the function
